@@ -223,6 +223,8 @@ pub struct ChildSpec<'a> {
     pub env: Vec<(String, String)>,
     pub env_remove: Vec<String>,
     pub timeout: Duration,
+    /// send the child's stdout to this file (e.g. /dev/full) instead of capturing it
+    pub stdout_to: Option<PathBuf>,
 }
 
 pub fn run_child(env: &WorkerEnv, bin: &str, spec: ChildSpec) -> Result<ChildResult, String> {
@@ -250,6 +252,10 @@ pub fn run_child(env: &WorkerEnv, bin: &str, spec: ChildSpec) -> Result<ChildRes
     for k in &spec.env_remove {
         cmd.env_remove(k);
     }
+    if let Some(p) = &spec.stdout_to {
+        let f = std::fs::OpenOptions::new().write(true).open(p).map_err(|e| format!("open {}: {e}", p.display()))?;
+        cmd.stdout(Stdio::from(f));
+    }
     die_with_parent(&mut cmd);
     let mut child = cmd.spawn().map_err(|e| format!("spawn {}: {e}", exe.display()))?;
     let mut stdin = child.stdin.take();
@@ -260,11 +266,13 @@ pub fn run_child(env: &WorkerEnv, bin: &str, spec: ChildSpec) -> Result<ChildRes
         }
         // stdin dropped here => EOF
     });
-    let mut out = child.stdout.take().unwrap();
+    let out = child.stdout.take();
     let mut err = child.stderr.take().unwrap();
     let t_out = std::thread::spawn(move || {
         let mut b = Vec::new();
-        let _ = out.read_to_end(&mut b);
+        if let Some(mut out) = out {
+            let _ = out.read_to_end(&mut b);
+        }
         b
     });
     let t_err = std::thread::spawn(move || {
